@@ -76,4 +76,11 @@ func newLintCommand$2$1 returns (err)
     assert @files [C16 C09] len(#arg0) == 1 && #arg0[0] == ArgsFirst(CtxArgs(c))
   }
 
+
+// the command's own flag table: the option names the options loader and the reporters read (C16)
+func newLintCommand returns (cmd)
+  props C16 C09 C08
+  ensures @name [C16] cmd != nil && cmd.Name == "lint"
+  ensures @flags [C16 C09] len(cmd.Flags) == 1 && CmdBoolFlag(cmd.Flags[0], "silent")
+
 @*/
